@@ -13,6 +13,8 @@ from __future__ import annotations
 
 import copy
 
+import pathlib
+
 import numpy as np
 
 from models import swc_text
@@ -538,7 +540,7 @@ def execute(program: dict) -> dict:
             kwargs = dict(opts)
             if source == "path":
                 world.read_plans["a/file.swc"] = plan
-                src = world.path("a/file.swc")
+                src = world.path("a/file.swc") if (si + len(data)) % 3 else pathlib.Path(world.path("a/file.swc"))
             elif source == "bytes":
                 src = world.bytes_source(data, plan)
             elif source == "textwrapper":
